@@ -400,7 +400,7 @@ def main(tier, seed):
     n_exh = len(exprs)
     rng = random.Random(seed)
     g = make_gen(rng)
-    nrand = 4000 if tier == "quick" else 40000
+    nrand = 4000 if tier == "quick" else 100000
     for _ in range(nrand):
         exprs.append(g.num(rng.choice([2, 3, 3, 4])) if rng.random() < 0.8 else g.boolean(rng.choice([1, 2, 3])))
     names = backtick_names()
